@@ -107,7 +107,10 @@ class Devices:
         if isinstance(
             telegram.destination_address, GroupAddress | InternalGroupAddress
         ):
-            for device in self.devices_by_group_address(telegram.destination_address):
+            # iterate over a copy - a device_updated_cb may add or remove devices
+            for device in tuple(
+                self.devices_by_group_address(telegram.destination_address)
+            ):
                 device.process(telegram)
 
     async def sync(self) -> None:
